@@ -9,8 +9,10 @@ NL == 1  CR == 2  SP == 3  DQ == 4  HASH == 5  DOLLAR == 6  COMMA == 7  MINUS ==
 UA == 13  UZ == 14  BSL == 15  USC == 16  LA == 17  LZ == 18  LBR == 19  RBR == 20  EACUTE == 21  ARAB3 == 22  CJK == 23  EMOJI == 24
 AllChars == 1..24
 
-IsAsciiLetter(c) == c \in {UA, UZ, LA, LZ}
-IsAsciiDigit(c)  == c \in {D0, D9}
+\* ranks >= 1000 denote "Unicode scalar value + 1000" for characters outside the table (used when strings
+\* recorded from the implementation are brought back into the specification; their order is not meaningful)
+IsAsciiLetter(c) == c \in {UA, UZ, LA, LZ} \/ c \in 1065..1090 \/ c \in 1097..1122
+IsAsciiDigit(c)  == c \in {D0, D9} \/ c \in 1048..1057
 \* what char::is_alphabetic / is_numeric would additionally accept
 IsUnicodeLetter(c) == IsAsciiLetter(c) \/ c \in {EACUTE, CJK}
 IsUnicodeDigit(c)  == IsAsciiDigit(c) \/ c = ARAB3
